@@ -119,7 +119,15 @@ json_print_array_open(struct jsonpr_ctx *pctx, const struct lyd_node *node)
 static int
 is_open_array(struct jsonpr_ctx *pctx, const struct lyd_node *node)
 {
-    if (pctx->open.count && matching_node(node, pctx->open.dnodes[pctx->open.count - 1])) {
+    const struct lyd_node *open;
+
+    if (!pctx->open.count || !(open = pctx->open.dnodes[pctx->open.count - 1])) {
+        /* no array open (in the data tree being printed) */
+        return 0;
+    }
+
+    /* the array must be an array of the siblings, not of an equally named (opaque) ancestor */
+    if (matching_node(node, open) && (lyd_parent(node) == lyd_parent(open))) {
         return 1;
     } else {
         return 0;
@@ -612,10 +620,14 @@ json_print_any_content(struct jsonpr_ctx *pctx, struct lyd_node_any *any)
         prev_opts = pctx->options;
         pctx->parent = &any->node;
         pctx->options &= ~LYD_PRINT_WITHSIBLINGS;
+
+        /* the arrays open around the anydata node are not arrays of the nested data tree */
+        LY_CHECK_ERR_RET(ret = ly_set_add(&pctx->open, NULL, 1, NULL), LEVEL_DEC, ret);
         LY_LIST_FOR(any->value.tree, iter) {
             ret = json_print_node(pctx, iter);
             LY_CHECK_ERR_RET(ret, LEVEL_DEC, ret);
         }
+        ly_set_rm_index(&pctx->open, pctx->open.count - 1, NULL);
         pctx->parent = prev_parent;
         pctx->options = prev_opts;
 
